@@ -256,4 +256,14 @@ theorem C18_ws_backend_error_spins_to_cap :
   apply loop_fixed_point
   decide +kernel
 
+
+/-- New finding (class `pipe-backend-write-error-drops-response`): the backend has answered
+    and closed; its answer is buffered, not yet written to the client; the next write of
+    client bytes towards the backend fails (`EPIPE` → `Closed`) and `backend_writable`
+    closes the session at once: the buffered answer is dropped. -/
+theorem C18_backend_write_error_counterexample :
+    let r := (Pipe.new 64).run [.backendReadable [1, 2, 3] .wouldBlock, .readable [9] .wouldBlock,
+      .backendWritable [(0, .closed)]]
+    r.2 = .close ∧ r.1.bbuf.data = [1, 2, 3] ∧ r.1.wroteF = [] ∧ r.1.fst = .normal := by decide +kernel
+
 end Sozu.Pipe
